@@ -314,3 +314,23 @@ PROPS["C17"] = {
     "min_nontrivial": {"quick": 5000, "thorough": 100000},
     "timeout": {"quick": 900, "thorough": 7200},
 }
+
+PROPS["C07"] = {
+    "level": "exploration",
+    "design_ref": "DESIGN.md §4.7",
+    "technique": "rapid-generated ordered SELECTs (plain and aggregate, 1-3 keys, asc/desc, ties); metamorphic base = same statement without ORDER BY; permutation + adjacent-pair sortedness under an independent typed comparator",
+    "level_text": "Randomised exploration with a two-directional oracle: the ordered result must be a permutation (multiset equality) of what the same "
+                  "statement returns without the ORDER BY clause in the same mode, and every adjacent pair must be in non-decreasing order under an "
+                  "independent lexicographic comparator that uses the declared type of each order field from the generating AST (text byte-wise, numbers "
+                  "numerically across int/float and numeric text of group columns, false before true) and the written direction. A lone "
+                  "`order by key asc` must leave the sequence unchanged. The un-ordered base itself is cross-checked against the reference evaluator.",
+    "level_note": "Trusted: comparators in lib/refselect.go, reference select. Ties may come in any order (only sortedness and permutation are demanded).",
+    "rule": "rapid: store x select list with named text/int/float/bool fields (25% aggregates with GROUP BY) x 1-3 ORDER BY keys x directions x batch {2,3,32} x {row,batch}. "
+            "Non-trivial = at least 3 rows, at least one strictly ordered adjacent pair, and (for more than one key) at least one tie on the first key; "
+            "distinct = distinct (query, store, batch size).",
+    "assumptions": COMMON_ASSUMPTIONS,
+    "legs": [
+        {"test": "TestC07", "kind": "rapid", "quick": {"checks": 5000, "shards": 4, "shrink": "15s"}, "thorough": {"checks": 120000, "shards": 16}},
+    ],
+    "min_nontrivial": {"quick": 1000, "thorough": 20000},
+}
